@@ -16,7 +16,7 @@ from vf import oalsyn
 SUPPORTS_REPLAY = True
 SHARDS = {'quick': 16, 'thorough': 64}
 TIMEOUT = {'quick': 1500, 'thorough': 7200}
-MUST_HIT = ['Position.nodes-compared', 'Position.multi-line-expression', 'Position.newline-in-end-keyword',
+MUST_HIT = ['Position.after-rejected-text', 'Position.nodes-compared', 'Position.multi-line-expression', 'Position.newline-in-end-keyword',
             'Position.comment-between-tokens', 'Totality.parsed', 'Totality.rejected', 'CpuBudget.guarded',
             'Totality.unterminated-comment']
 MUST_REACH = ['bridgepoint/oal.py:set_positional_info', 'bridgepoint/oal.py:find_column',
@@ -140,6 +140,14 @@ def positions(ctx, g, rng):
     tree = g.program(depth=rng.choice((0, 1, 2, 3)), nstmts=rng.randint(1, 5))
     text = om.render(tree, rng, layout='random', case=rng.choice(('lower', 'random')),
                      extra_parens=rng.choice((0.0, 0.1)), newline_in_end=True)
+    if rng.random() < 0.35:
+        # positions must not depend on what was parsed (or rejected) before
+        junk = rng.choice(('x = 1;\ny = ;\n', 'if a\n\n  b = 2;\n', '\n\n\nselect any from;', 'x = (1 +\n2;',
+                           '/* open\n\n', 'a = 1;\nb = 2;\nend if;'))
+        try:
+            oal.parse(junk)
+        except oal.ParseException:
+            ctx.hit('Position.after-rejected-text')
     try:
         got = oal.parse(text)
     except oal.ParseException as e:
